@@ -8,6 +8,7 @@ def parseEntry19 : String → Option ApiEntry
   | "addrSend" => some .addrSend | "addrCall" => some .addrCall | "addrSender" => some .addrSender
   | "addrWeakSender" => some .addrWeakSender | "addrCaller" => some .addrCaller
   | "addrWeakCaller" => some .addrWeakCaller | "ctxWeakSender" => some .ctxWeakSender
+  | "owningSend" => some .owningSend | "owningCall" => some .owningCall
   | "ctxWeakCaller" => some .ctxWeakCaller | "ctxInterval" => some .ctxInterval
   | "ctxIntervalWith" => some .ctxIntervalWith | "ctxDelayedSend" => some .ctxDelayedSend
   | "ctxRegisterChild" => some .ctxRegisterChild | "ctxSendToChildren" => some .ctxSendToChildren
@@ -15,6 +16,7 @@ def parseEntry19 : String → Option ApiEntry
   | "brokerPublish" => some .brokerPublish | "brokerSubscribe" => some .brokerSubscribe
   | "addrRestart" => some .addrRestart | "ctxRestart" => some .ctxRestart
   | "withStream" => some .withStream | "recreateFromDefault" => some .recreateFromDefault
+  | "builderOnStream" => some .builderOnStream | "builderBoundedOnStream" => some .builderBoundedOnStream
   | _ => none
 
 def kv (toks : List String) (key : String) : String :=
